@@ -5,6 +5,7 @@
   Part 2: the link's detach handshake (`Amqp.LinkLife`).
 -/
 import Amqp.DetachHold
+import Theorems.PendingDetach
 import Amqp.SessLife
 import Amqp.LinkLife
 
